@@ -18,4 +18,5 @@ def run(ck):
     opacity.r9_solid_substitution_excludes_kernels(ck, P)
     geometry.r14_hull_needs_constant_sign_of_w(ck, P, 'C09-R10')   # COVER_CLIP promotes an alpha-less source to opaque
     sampling.r20_cover_from_corners_needs_affine(ck, P)
+    status.r_same_storage_needs_same_offsets(ck, P)   # the pixbuf paths take the alpha of an alpha-less source's undefined byte
     codec.r17_converted_pixels_get_the_alpha_mask(ck, P, 'C09-R11')
